@@ -1,1 +1,1 @@
-def wedgeScaleIsDivUtils : Bool := false
+def wedgeScaleIsDivUtils : Bool := true
